@@ -12,6 +12,15 @@ a partition                                          `List (Nat × V)` (group ke
 `ShuffleReduce` (tasks): partials of a key arrive    `shuffleReduce` (partition `h k % n`, order of the partials kept)
    in source order
 `DiskShuffle`: partials of a key arrive in any order `combine` over a permutation of the partials
+`shuffle_group` + concat of the pieces (tasks)        `shufflePiece`, `shuffleOut` (list level: rows keep their order)
+a partial as the frame that is shipped               `partialRows` (one row `(key, state)` per group)
+`NUnique` (`_nunique_df_chunk` = drop_duplicates,    `nuChunk`, `nuCombine`, `nuAggregate`, `nunique` (`treeReduce2`:
+   `_nunique_df_combine` = unique().explode(),          combine at the inner levels, aggregate at the root)
+   `nunique_df_aggregate` = nunique())
+`IdxMin`/`IdxMax` = (`idxmin`/`idxmax`, `first`)      `idxCurrent` (as it is); `opArgmin`/`opArgmax` (what it should be)
+`GroupByCumulative._lower` + `…Finalizer._layer`     `cumRaw`, `cumLast`, `cumFilled` (`_cum_agg_filled`), `cumAligned`
+                                                        (`_cum_agg_aligned`), `cumLoop`/`cumDask`
+`TreeReduce._layer` batches                          `treeLevels`
 Import-free.
 -/
 namespace Dask.Groupby
@@ -66,5 +75,141 @@ def opMax (a b : Int) : Int := if a ≤ b then b else a
 /-- (Σx, n) for mean; (n, Σx, Σx²) for var/std -/
 def opPair (a b : Int × Int) : Int × Int := (a.1 + b.1, a.2 + b.2)
 def opTriple (a b : Int × Int × Int) : Int × Int × Int := (a.1 + b.1, a.2.1 + b.2.1, a.2.2 + b.2.2)
+
+
+/-! ### `TreeReduce._layer`: shape -/
+
+/-- tree reduction with separate `combine` (inner levels) and `aggregate` (root), as `TreeReduce._layer` wires it -/
+def treeReduce2 {S R : Type} (comb : List S → S) (agg : List S → R) (k : Nat) : Nat → List S → R
+  | 0, ps => agg ps
+  | fuel + 1, ps =>
+    if ps.length ≤ k then agg ps
+    else treeReduce2 comb agg k fuel ((partitionAll k ps.length ps).map comb)
+
+/-- the batch sizes of every inner level of `TreeReduce._layer` for `n` input keys and `split_every = k` -/
+def treeLevels (k : Nat) : Nat → Nat → List (List Nat)
+  | 0, _ => []
+  | fuel + 1, n =>
+    if n ≤ k then []
+    else
+      let batches := (partitionAll k n (List.range n)).map List.length
+      batches :: treeLevels k fuel batches.length
+
+/-! ### `ShuffleReduce` / apply after the shuffle, list level -/
+
+/-- the piece of one partition that `shuffle_group` sends to output partition `p` (rows keep their order) -/
+def shufflePiece {V : Type} (h : Nat → Nat) (n p : Nat) (rows : List (Nat × V)) : List (Nat × V) :=
+  rows.filter fun r => h r.1 % n == p
+
+/-- output partition `p` of an order-preserving shuffle: the pieces of all input partitions, in source order -/
+def shuffleOut {V : Type} (h : Nat → Nat) (n p : Nat) (parts : List (List (Nat × V))) : List (Nat × V) :=
+  (parts.map (shufflePiece h n p)).flatten
+
+/-- first occurrences, in order -/
+def dedup {α : Type} [DecidableEq α] : List α → List α
+  | [] => []
+  | x :: xs => x :: (dedup xs).filter (fun y => decide (y ≠ x))
+
+/-- the partial aggregate of one partition as the rows `(key, state)` of the frame dask ships around: one row per group
+    that has a state, in first-appearance order of the keys -/
+def partialRows {V M : Type} (op : M → M → M) (inj : V → Option M) (rows : List (Nat × V)) : List (Nat × M) :=
+  (dedup (rows.map fun r => r.1)).filterMap fun k => (chunk op inj rows k).map fun m => (k, m)
+
+/-! ### nunique -/
+
+/-- cells of group `k` in row order -/
+def groupCells (rows : List (Nat × Option Int)) (k : Nat) : List (Option Int) :=
+  (rows.filter fun r => r.1 == k).map fun r => r.2
+
+/-- `_nunique_df_chunk`: `drop_duplicates(subset=by + [name])` — the distinct cells of every group (NA is a cell) -/
+def nuChunk (rows : List (Nat × Option Int)) : Nat → List (Option Int) := fun k => dedup (groupCells rows k)
+
+/-- `_nunique_df_combine`: concat, then `unique().explode()` per group -/
+def nuCombine (ps : List (Nat → List (Option Int))) : Nat → List (Option Int) :=
+  fun k => dedup ((ps.map fun p => p k).flatten)
+
+/-- `nunique_df_aggregate`: concat, then `nunique()` per group (NA not counted) -/
+def nuAggregate (ps : List (Nat → List (Option Int))) : Nat → Nat :=
+  fun k => ((nuCombine ps k).filter Option.isSome).length
+
+def nunique (se fuel : Nat) (parts : List (List (Nat × Option Int))) : Nat → Nat :=
+  treeReduce2 nuCombine nuAggregate se fuel (parts.map nuChunk)
+
+/-- specification: the number of distinct non-NA values of the group in the whole frame -/
+def nuniqueSpec (rows : List (Nat × Option Int)) (k : Nat) : Nat :=
+  ((dedup (groupCells rows k)).filter Option.isSome).length
+
+/-! ### idxmin / idxmax -/
+
+/-- `(value, label)`: the smaller value wins, ties keep the earlier row (pandas: first occurrence) -/
+def opArgmin (a b : Int × Int) : Int × Int := if b.1 < a.1 then b else a
+def opArgmax (a b : Int × Int) : Int × Int := if a.1 < b.1 then b else a
+
+/-- a row cell `(value or NA, index label)` as a state -/
+def idxInj (r : Option Int × Int) : Option (Int × Int) := r.1.map fun v => (v, r.2)
+
+/-- `first` on states -/
+def opFirstP (a _ : Int × Int) : Int × Int := a
+
+/-- `IdxMin`/`IdxMax` **as they are**: chunk = `idxmin`/`idxmax` of every partition, combine = aggregate = `first` -/
+def idxCurrent (op : Int × Int → Int × Int → Int × Int) (k fuel : Nat)
+    (parts : List (List (Nat × (Option Int × Int)))) : Nat → Option (Int × Int) :=
+  treeReduce opFirstP k fuel (parts.map (chunk op idxInj))
+
+/-! ### cumulative operations (cumsum / cumprod / cumcount) -/
+
+/-- running value of every group -/
+abbrev St := Nat → Option Int
+
+def stEmpty : St := fun _ => none
+
+def stSet (st : St) (k : Nat) (v : Int) : St := fun j => if j = k then some v else st j
+
+/-- next running value of a group -/
+def cumStep (op : Int → Int → Int) (cur : Option Int) (v : Int) : Int :=
+  match cur with
+  | none => v
+  | some a => op a v
+
+/-- `groupby.cumsum` of the rows started from the running values `st` (an NA cell gives NA and is skipped) -/
+def cumGo (op : Int → Int → Int) : St → List (Nat × Option Int) → List (Option Int)
+  | _, [] => []
+  | st, (_, none) :: rs => none :: cumGo op st rs
+  | st, (k, some v) :: rs => some (cumStep op (st k) v) :: cumGo op (stSet st k (cumStep op (st k) v)) rs
+
+/-- the running values after the rows -/
+def cumSt (op : Int → Int → Int) : St → List (Nat × Option Int) → St
+  | st, [] => st
+  | st, (_, none) :: rs => cumSt op st rs
+  | st, (k, some v) :: rs => cumSt op (stSet st k (cumStep op (st k) v)) rs
+
+/-- chunk: the cumulative operation inside one partition -/
+def cumRaw (op : Int → Int → Int) (rows : List (Nat × Option Int)) : List (Option Int) := cumGo op stEmpty rows
+
+/-- `cum_last` (`M.last` of the cumulative column per group): the last non-NA cumulative value of every group -/
+def cumLast (op : Int → Int → Int) (rows : List (Nat × Option Int)) : St := cumSt op stEmpty rows
+
+/-- `_cum_agg_filled(a, b, op, initial)`: union of the groups, absent / NA = initial -/
+def cumFilled (op : Int → Int → Int) (e : Int) (a b : St) : St := fun k =>
+  match a k, b k with
+  | none, none => none
+  | x, y => some (op (x.getD e) (y.getD e))
+
+/-- `_cum_agg_aligned(part, carried, …)`: `op (cum_raw cell) (carried value of the row's group, initial when absent/NA)` -/
+def cumAligned (op : Int → Int → Int) (e : Int) (rows : List (Nat × Option Int)) (carried : St) : List (Option Int) :=
+  List.zipWith (fun r c => c.map fun x => op x ((carried r.1).getD e)) rows (cumRaw op rows)
+
+/-- `GroupByCumulativeFinalizer._layer`: partition 0 is `cum_raw`; partition 1 is aligned with `cum_last[0]`;
+    partition i+1 with `_cum_agg_filled(carried_i, cum_last[i])` -/
+def cumLoop (op : Int → Int → Int) (e : Int) : Option St → List (List (Nat × Option Int)) → List (List (Option Int))
+  | _, [] => []
+  | none, p :: ps => cumRaw op p :: cumLoop op e (some (cumLast op p)) ps
+  | some c, p :: ps => cumAligned op e p c :: cumLoop op e (some (cumFilled op e c (cumLast op p))) ps
+
+def cumDask (op : Int → Int → Int) (e : Int) (parts : List (List (Nat × Option Int))) : List (List (Option Int)) :=
+  cumLoop op e none parts
+
+/-- `_cumcount_aggregate(a, b) = a + b + 1` (initial −1): `cumcount` is the scan of this operation over a 0 per row -/
+def opCount (a b : Int) : Int := a + b + 1
 
 end Dask.Groupby
